@@ -434,6 +434,13 @@ func (cr *ChunkReader) parseChunkHeaderBytes(header []byte, l *int) (int64, stri
 		return 0, sig, 0, nil
 	}
 
+	// the signature of a data chunk is verified when the header after it
+	// is parsed, and only if the chunk declared one: a chunk without a
+	// signature would never be verified
+	if sig == "" {
+		return 0, "", 0, s3err.GetAPIError(s3err.ErrSignatureDoesNotMatch)
+	}
+
 	err = readAndSkip(rdr, '\n')
 	if err != nil {
 		return cr.handleRdrErr(err, header)
